@@ -13,7 +13,7 @@ for id in $ids; do
   out=$(scripts/verify_seed.sh $tmp X $prop quick 2>&1)
   rm -rf $tmp
   res=$(echo "$out" | grep '^RESULT')
-  viol=$(echo "$out" | grep -A1 '^VIOLATION' | sed -n 2p | cut -c1-300)
+  viol=$(echo "$out" | grep -m1 '^  kind=' | cut -c1-300)
   python3 - "$d/meta.json" "$res" "$viol" "$prop" <<'EOF'
 import json,sys,re,time
 p,res,viol,prop=sys.argv[1:5]
